@@ -96,6 +96,18 @@ class PersistenceLandscaper(BaseEstimator, TransformerMixin):
         self._stop = value
         self._stop_is_fitted = False
 
+    def get_params(self, deep=True):
+        # a bound learned by `fit` is state, not a parameter: scikit-learn's
+        # `clone` (used by cross_val_score, GridSearchCV, ...) rebuilds the
+        # estimator from its parameters, and a clone that received a learned
+        # bound would keep it, as if the user had fixed it, at its own fits
+        params = super().get_params(deep=deep)
+        if getattr(self, "_start_is_fitted", False):
+            params["start"] = None
+        if getattr(self, "_stop_is_fitted", False):
+            params["stop"] = None
+        return params
+
     def __repr__(self):
         if self.start is None or self.stop is None:
             return f"PersistenceLandscaper(hom_deg={self.hom_deg}, num_steps={self.num_steps})"
